@@ -54,7 +54,7 @@ PROPS = {
     'C04': dict(extra=['conc_explore'], modules=['Hagall.Props.C04'], profiles=['mixed', 'comp', 'module', 'malformed', 'latency'], n=(240, 4000),
                 focus=None,
                 topics=slice_of(ALL_TOPICS, kinds=['outcome'], answer_only=True, outs=ANSWERS)),
-    'C05': dict(tools=['idstress', 'drive', 'extract', 'wire-race'], extra=['id_stress', 'race_harness', 'conc_explore'], modules=['Hagall.Props.C05'], profiles=['pose', 'mixed', 'module'], n=(240, 4000),
+    'C05': dict(tools=['idstress', 'drive', 'extract', 'wire-race'], extra=['id_stress', 'race_harness', 'conc_explore'], modules=['Hagall.Props.C05', 'Hagall.Props.C05Premature'], profiles=['pose', 'mixed', 'module'], n=(240, 4000),
                 focus={'entityDelete', 'updatePose', 'assetAdd'},
                 topics=slice_of(['entityDelete', 'updatePose', 'assetAdd'],
                                 outs={'error', 'entityDeleteResp', 'entityDeleteBcast', 'poseBcast', 'assetAddResp', 'assetAddBcast'})),
@@ -123,7 +123,7 @@ PROPS['C09'] = dict(modules=['Hagall.Props.C09'], profiles=['mixed'], n=(40, 400
 ABS = {'C14': ['Hagall.Gen.AbsCustom'], 'C17': ['Hagall.Gen.AbsFlags'], 'C04': ['Hagall.Gen.AbsDispatch'],
        'C18': ['Hagall.Gen.AbsLatency'], 'C19': ['Hagall.Gen.AbsChans'], 'C08': ['Hagall.Gen.AbsChans', 'Hagall.Gen.AbsDispatch', 'Hagall.Gen.AbsLife'],
        # what the concurrent models assume of the order of calls and of the locks held, computed on the regenerated facts
-       **{p: ['Hagall.Gen.AbsOrder'] for p in ('C01', 'C02', 'C03', 'C07', 'C10', 'C12', 'C13', 'C16')}}
+       **{p: ['Hagall.Gen.AbsOrder'] for p in ('C01', 'C02', 'C03', 'C05', 'C07', 'C10', 'C12', 'C13', 'C16')}}
 for _p, _c in PROPS.items():
     _c['modules'] = _c['modules'] + [f'Hagall.Gen.Ob{_p}'] + ABS.get(_p, [])
     _c.setdefault('tools', ['drive', 'extract'])
